@@ -220,6 +220,11 @@ func BuildField(c *FieldBuildContext) ([]*Field, error) {
 
 		// If this is an embedded field, return message's fields instead of creating another field
 		if gogoproto.IsEmbed(c.field.FieldDescriptorProto) {
+			// An embedded message all of whose fields are excluded adds nothing to its parent
+			if d, err := c.GetMessageDescriptor(); err == nil && f.Message.IsEmpty && len(d.GetField()) > 0 {
+				return nil, nil
+			}
+
 			if !c.GetNullable() {
 				return f.Message.Fields, nil
 			}
